@@ -7,6 +7,7 @@ the harness's own RFC 6455 parser; recorded traces are validated by TLC
 against the monitor."""
 import json, os
 import vlib
+from checks import wsval
 
 LEVEL = "model_checking"
 
@@ -24,7 +25,7 @@ PAR = int(os.environ.get("VERIF_PAR", str(vlib.NCPU)))
 def _validate(ck, sw, name, beh, label, mode, seed):
     trace = os.path.join(ck.work, "trace_%s.ndjson" % name)
     summ, _ = vlib.run_replay(["wssession", "-in", beh, "-out", trace, "-seed", str(seed), "-mode", mode])
-    bads, _ = vlib.validate_trace(sw, "WsSessionMonTrace", "WsSessionMonTrace.cfg", trace, parallel=PAR)
+    bads = wsval.validate(sw, trace, PAR)
     ck.cov["evaluations"] += summ["scenarios"]
     ck.cov["distinct_nontrivial"] += summ["nontrivial"]
     ck.cov["traces_validated_against_impl"] += summ["scenarios"] - len({b[0] for b in bads})
@@ -73,7 +74,14 @@ def run(ck):
         _validate(ck, sw, "cover", beh, "transition cover %dx%d, whole frames" % (consts["MaxPeer"], consts["MaxCalls"]),
                   "split=frame", ck.seed)
         if not quick:
-            _validate(ck, sw, "cover_b", beh, "transition cover, byte-wise reads, other frame variants", "split=byte,variant=3", ck.seed)
+            # a third of the cover once more: byte-wise reads, other concrete frame variants
+            sub = os.path.join(ck.work, "cover_third.jsonl")
+            with open(beh) as f, open(sub, "w") as out:
+                for i, line in enumerate(f):
+                    if i % 3 == ck.seed % 3:
+                        out.write(line)
+            _validate(ck, sw, "cover_b", sub, "a third of the transition cover, byte-wise reads, other frame variants",
+                      "split=byte,variant=3", ck.seed)
 
     def count():
         consts = {"MaxPeer": 5, "MaxCalls": 4, "BUG_SecondClose": "FALSE"}
